@@ -13,7 +13,7 @@ from typing import Dict, List, Optional, Set
 
 from ..front_py import AnalysisError, FuncInfo, walk_local, norm, dotted
 from ..dataflow import Defs, parent_map, is_terminating
-from .codec_py import DEC, ENC, find_cursor_class, Prims, find_dispatcher, byte_index_of
+from .codec_py import DEC, ENC, find_cursor_class, Prims, find_dispatcher, byte_index_of, lin
 
 
 def ordering_truth(op, left_is_len: bool):
@@ -64,6 +64,12 @@ def run(eng, rep) -> None:
                 ok = guard_dominates(eng, m, cfg, rn, S, upper, defs, slice_upper=True)
                 if ok is True:
                     rep.undecided("R16.1", m.file, m.qual, site, "slice whose upper bound is bounds-tested; whether it covers every needed byte is arithmetic (not decided)")
+                elif isinstance(slice_guard_gap(m, cfg, rn, S, cc.C, upper), str) and slice_guard_gap(m, cfg, rn, S, cc.C, upper) != "covers":
+                    rep.violation("R16.1", m.file, m.qual, site, slice_guard_gap(m, cfg, rn, S, cc.C, upper))
+                elif slice_length_checked(m, r, defs):
+                    rep.ok("R16.1", m.file, m.qual, site, "the slice's length is compared with the requested count and a shortfall raises")
+                elif some_len_guard(m, cfg, rn, S):
+                    rep.undecided("R16.1", m.file, m.qual, site, "a raising test on len(store) dominates the slice; its sufficiency is arithmetic (not decided)")
                 else:
                     rep.violation("R16.1", m.file, m.qual, site, "slice read of the store is not preceded by a raising bounds test on its upper bound: a slice never raises, so bytes beyond the input are silently treated as absent/zero")
                 continue
@@ -73,6 +79,12 @@ def run(eng, rep) -> None:
                 rep.ok("R16.1", m.file, m.qual, site, "dominated by a raising test index >= len(store)")
             elif isinstance(ok, str):
                 rep.violation("R16.1", m.file, m.qual, site, ok)
+            elif in_indexerror_try(m, r):
+                guarded_methods.add(name)
+                rep.ok("R16.1", m.file, m.qual, site, "IndexError of the indexing is converted into the decoder's error (indices are non-negative)")
+            elif some_len_guard(m, cfg, rn, S):
+                guarded_methods.add(name)
+                rep.undecided("R16.1", m.file, m.qual, site, "a raising test on len(store) dominates the read, on a bound other than this index; its sufficiency is arithmetic (not decided)")
             else:
                 # store[idx] with idx >= len raises IndexError by itself in Python: still an error, but
                 # only if idx is non-negative; accept as guarded-by-language, noted
@@ -209,6 +221,93 @@ def method_advances(eng, cc, pr, name: str, depth: int = 0) -> bool:
     return any(method_advances(eng, cc, pr, c.func.attr, depth + 1) for c in cc.self_calls(m))
 
 
+def _byte_form(e: ast.AST, C: str):
+    """e  ==  (lin >> 3) + k   ->  (lin form with the cursor named 'cursor', k) ; None when not of that shape"""
+    k = 0
+    while isinstance(e, ast.BinOp) and isinstance(e.op, (ast.Add, ast.Sub)) and isinstance(e.right, ast.Constant) and isinstance(e.right.value, int):
+        k += e.right.value if isinstance(e.op, ast.Add) else -e.right.value
+        e = e.left
+    inner = byte_index_of(e)
+    if inner is None:
+        return None
+    l = lin(inner, {C: "cursor"})
+    return None if l is None else (l, k)
+
+
+def slice_guard_gap(m: FuncInfo, cfg, rn, S: str, C: str, upper: ast.AST):
+    """A raising test `G > len(store)` (or >=) dominates the slice store[a:U].  Compare U with G in the form
+    (linear >> 3) + k:  -> 'covers' (U <= G whenever the test passes), a str describing a definite shortfall
+    (U can exceed G by one while the test admits G == len), or None (not decided)."""
+    from ..dataflow import deep_resolve
+    U = _byte_form(deep_resolve(m.node, upper), C)
+    if U is None:
+        return None
+    for n in walk_local(m.node):
+        if not (isinstance(n, ast.If) and is_terminating(n.body) and any(isinstance(x, ast.Raise) for x in n.body) and isinstance(n.test, ast.Compare) and len(n.test.ops) == 1):
+            continue
+        l, op, r = n.test.left, n.test.ops[0], n.test.comparators[0]
+        lenS = "len(%s)" % S
+        if norm(r) == lenS and isinstance(op, (ast.Gt, ast.GtE)):
+            g, strict = l, isinstance(op, ast.Gt)
+        elif norm(l) == lenS and isinstance(op, (ast.Lt, ast.LtE)):
+            g, strict = r, isinstance(op, ast.Lt)
+        else:
+            continue
+        tn = cfg.node_for(n)
+        if tn is None or rn is None or not cfg.every_path_passes(rn, {tn}):
+            continue
+        G = _byte_form(deep_resolve(m.node, g), C)
+        if G is None:
+            continue
+        (lu, ku), (lg, kg) = U, G
+        d = {k: lu.get(k, 0) - lg.get(k, 0) for k in set(lu) | set(lg)}
+        if any(v != 0 for k, v in d.items() if k != ""):
+            continue
+        c = d.get("", 0)           # inner constants differ by c (in bits)
+        # U - G  is in  [floor(c/8), ceil(c/8)] + (ku - kg)
+        lo = (c // 8) + (ku - kg)
+        hi = -((-c) // 8) + (ku - kg)
+        admits = 0 if strict else -1   # the test passes for G <= len (strict) or G <= len - 1
+        if hi + admits <= 0:
+            return "covers"
+        return "the bounds test compares %s with len(store) but the slice runs to %s, which can be %s larger: when the tested bound equals the buffer length the slice is silently cut short (the word's top bits read as 0)" % (norm(g, 40), norm(upper, 40), "one" if hi + admits == 1 else str(hi + admits))
+    return None
+
+
+def in_indexerror_try(m: FuncInfo, node: ast.AST) -> bool:
+    """node sits in the body of a try whose handler for IndexError (or broader) ends by raising"""
+    for t in walk_local(m.node):
+        if isinstance(t, ast.Try) and any(x is node for b in t.body for x in ast.walk(b)):
+            for h in t.handlers:
+                ht = norm(h.type) if h.type is not None else "BaseException"
+                if any(k in ht for k in ("IndexError", "LookupError", "Exception")) and h.body and isinstance(h.body[-1], ast.Raise):
+                    return True
+    return False
+
+
+def slice_length_checked(m: FuncInfo, r: ast.Subscript, defs: Defs) -> bool:
+    """`x = store[a:b]` followed by `if len(x) != n / < n: raise`"""
+    for k, v, st in [(k, v, st) for name, bs in defs.binds.items() for (k, v, st) in bs if v is r]:
+        tgt = st.targets[0] if isinstance(st, ast.Assign) and len(st.targets) == 1 else None
+        if not isinstance(tgt, ast.Name):
+            continue
+        for n in walk_local(m.node):
+            if isinstance(n, ast.If) and is_terminating(n.body) and any(isinstance(x, ast.Raise) for x in n.body) and isinstance(n.test, ast.Compare) and len(n.test.ops) == 1 \
+                    and isinstance(n.test.ops[0], (ast.NotEq, ast.Lt)) and norm(n.test.left) == "len(%s)" % tgt.id:
+                return True
+    return False
+
+
+def some_len_guard(m: FuncInfo, cfg, rn, S: str) -> bool:
+    """a raising test that mentions len(store) dominates rn (its sufficiency is arithmetic and not decided)"""
+    for n in walk_local(m.node):
+        if isinstance(n, ast.If) and is_terminating(n.body) and any(isinstance(x, ast.Raise) for x in n.body) and ("len(%s)" % S) in norm(n.test, 300):
+            tn = cfg.node_for(n)
+            if tn is not None and rn is not None and cfg.every_path_passes(rn, {tn}):
+                return True
+    return False
+
+
 def guard_dominates(eng, m: FuncInfo, cfg, rn, S: str, idx: ast.AST, defs: Defs, slice_upper: bool = False):
     """True if a raising `idx >= len(S)` test dominates node rn; a str = definite problem; None = none found"""
     if rn is None:
@@ -285,7 +384,10 @@ def body_reads_every_path(eng, f: FuncInfo, body, cc, read_methods, reach) -> bo
                     return True
         return False
     def stmt_reads(st) -> bool:
-        return any(isinstance(c, ast.Call) and call_reads(c) for c in ast.walk(st))
+        if any(isinstance(c, ast.Call) and call_reads(c) for c in ast.walk(st)):
+            return True
+        # a direct (subscript) read of the store is a read too; whether it is bounds-tested is R16.1's concern
+        return any(isinstance(c, ast.Subscript) and isinstance(c.ctx, ast.Load) and norm(c.value) == cc.S for c in ast.walk(st))
 
     def always(stmts) -> Optional[bool]:
         """True: every path through stmts reads; False: some path leaves/finishes without reading."""
